@@ -12,6 +12,9 @@ DIRECTED = [
      [{'all': False, 'check': 'CheckGCDN1', 'batch': ['s1', 's2', 's3', 's4', 's5']}, {'all': True, 'check': 'ALL', 'batch': ['s2', 's3', 's4', 's5', 's1']}]),
     ('rsa', 'behind-shared-pair', {'s1': 'healthy', 's2': 'sharedA', 's3': 'sharedB', 's4': 'healthy', 's5': 'healthy3072'},
      [{'all': False, 'check': 'CheckGCD', 'batch': ['s1', 's2', 's3', 's4', 's5']}, {'all': True, 'check': 'ALL', 'batch': ['s2', 's3', 's4', 's5', 's1']}]),
+    ('rsa', 'padded-encodings', {'s1': 'healthypad', 's2': 'healthy', 's3': 'healthypad', 's4': 'exponent'},
+     [{'all': True, 'check': 'ALL', 'batch': ['s1', 's2']}, {'all': False, 'check': 'CheckExponents', 'batch': ['s4', 's3', 's1']},
+      {'all': False, 'check': 'CheckSizes', 'batch': ['s3']}]),
     ('rsa', 'behind-each-weak-family', {'s1': 'small', 's2': 'healthy', 's3': 'fermat', 's4': 'healthy3072', 's5': 'exponent', 's6': 'healthy'},
      [{'all': True, 'check': 'ALL', 'batch': ['s1', 's2', 's3', 's4', 's5', 's6']}]),
     ('ec', 'behind-close-pair', {'s1': 'healthy', 's2': 'closeA', 's3': 'closeB', 's4': 'healthy', 's5': 'healthy384', 's6': 'weakprivate'},
